@@ -63,7 +63,7 @@ def run(ck):
             ck.count('middle class absent from training labels')
         desc = dict(i=i, K=K, mode=mode, metric=metric, n_trees=n_trees, soft=soft, n=n, L=L, p0=p0, gap=gap, discrete=discrete, refit=bool((i % 4 == 1) and metric != 'auc'), seed=ck.seed)
         xr.seed_all(1200 + i + ck.seed)
-        model = xr.xRFM(rfm_params=xr.default_rfm_params(iters=1, reg=1e-2, bandwidth=4.0), max_leaf_size=L, n_trees=n_trees, verbose=False,
+        model = xr.xRFM(rfm_params=xr.default_rfm_params(iters=1, reg=1e-2, bandwidth=([0.5, 4.0][i % 2] if single_leaf else 4.0), bandwidth_mode=('adaptive' if single_leaf else 'constant'), kernel=(['l2', 'l2_high_dim'][(i // 5) % 2] if single_leaf else 'l2')), max_leaf_size=L, n_trees=n_trees, verbose=False,
                         tuning_metric=metric, classification_mode=mode, use_temperature_tuning=False,
                         split_temperature=([0.5, 3.0][(i // 3) % 2] if soft else None), refill_size=30,
                         # soft routing with a leaf cap that binds (fewer leaves allowed than the mass rule would keep) on every other soft fit
@@ -85,6 +85,18 @@ def run(ck):
             far = X[:2].copy(); far[:, -1] = 1e6            # far rows that share all but one coordinate with a training row
             Q = np.concatenate([Q[:8], far, Q[8:]]).astype(np.float32)
         Qt = torch.tensor(Q)
+        if single_leaf:
+            # the FIRST query after fit consists of far rows only (single-leaf tree, adaptive bandwidth: no kernel evaluation happened since the leaf was fitted)
+            with xr.quiet():
+                Pf = np.asarray(model.predict_proba(torch.tensor(Q[-2:])), dtype=np.float64)
+            ck.count('first query after fit = far rows only (adaptive single leaf)')
+            if mode == 'prevalence' and Pf.shape == (2, K) and np.all(np.isfinite(Pf)):
+                freq0 = np.bincount(y, minlength=K) / len(y); w0 = np.clip(freq0, 1e-3, 1 - 1e-3); w0 = w0 / w0.sum()
+                if np.max(np.abs(Pf - w0[None, :])) > 5e-4:
+                    ck.violation(f'first query after fit (two far rows only) gives {Pf[0].tolist()}, training class frequencies (clamped) are {w0.tolist()} on {desc}',
+                                 dict(desc, got=Pf.tolist(), want=w0.tolist()), key=json.dumps(dict(site='proba', what='far-first', mode=mode)))
+            elif not (Pf.shape == (2, K) and np.all(np.isfinite(Pf)) and np.all(Pf >= 0) and np.all(np.abs(Pf.sum(1) - 1) < 1e-5)):
+                ck.violation(f'first query after fit (two far rows only) gives invalid rows {Pf.tolist()} on {desc}', dict(desc, got=Pf.tolist()), key=json.dumps(dict(site='proba', what='far-first-valid', mode=mode)))
         with xr.quiet():
             P = np.asarray(model.predict_proba(Qt), dtype=np.float64)
             lab = np.asarray(model.predict(Qt))
